@@ -14,10 +14,10 @@ RULE = (
     "instance, call inside a comprehension, user-decorated function, function of an imported pyscript module}; fault-point "
     "enumeration: each of 12 fault kinds (ZeroDivisionError, IndexError, KeyError, AttributeError, ValueError, NameError, "
     "TypeError, AssertionError with message, ModuleNotFoundError, user exception class, raise-from, exception raised "
-    "while handling another) is injected at EVERY statement position of every level (before the call, after the call), "
+    "while handling another, raise ... from None while handling another) is injected at EVERY statement position of every level (before the call, after the call), "
     "and the chain is entered from EVERY kind of user-code entry point {service function, event / state / time-startup "
     "trigger function, state-trigger expression, @state_active expression, event filter expression, task.create body, "
-    "done callback (followed by a second callback on the same task, which must still run), task.wait_until trigger expression, load time} in both subsystems. Oracle: (1) exactly one ERROR record, on the script's own logger "
+    "done callback (followed by a second callback on the same task, which must still run), task.wait_until trigger expression, a service call that is still waiting when its file is reloaded and fails afterwards, load time} in both subsystems. Oracle: (1) exactly one ERROR record, on the script's own logger "
     "(custom_components.pyscript.<context>[.<function>]), carrying the exception type and message; (2) the (file, function, "
     "line) triples of its script frames equal those of CPython's traceback for the same source run natively; (3) "
     "containment: the loop's exception handler saw nothing, the service call did not raise into Home Assistant, a second "
@@ -45,9 +45,10 @@ FAULTS = [
     ("user", "raise UserErr('user-msg')", "UserErr", "user-msg"),
     ("from", "raise KeyError('outer-k') from ValueError('inner-v')", "KeyError", "outer-k"),
     ("context", "try:\n    junk = 1 / 0\nexcept ZeroDivisionError:\n    raise RuntimeError('while-handling')", "RuntimeError", "while-handling"),
+    ("from_none", "try:\n    junk = 1 / 0\nexcept ZeroDivisionError:\n    raise RuntimeError('no-context') from None", "RuntimeError", "no-context"),
 ]
 FORMS = ["plain", "multiline", "method", "comp", "decorated", "module"]
-ENTRIES = ["service", "event", "state", "startup", "state_expr", "active_expr", "event_filter", "task", "callback", "wait_expr", "load"]
+ENTRIES = ["service", "event", "state", "startup", "state_expr", "active_expr", "event_filter", "task", "callback", "wait_expr", "service_reload", "load"]
 
 HELPER = '''
 def hcall(fn, x):
@@ -149,6 +150,10 @@ def build(chain_forms, fault_level, fault_slot, fault_stmt, entry, pyscript):
                 "def cb2(x):\n    marks.append(('cb2', x))\n"
                 "@service\ndef entry(x=0):\n    t = task.create(quick)\n    task.add_done_callback(t, cb, x)\n    task.add_done_callback(t, cb2, x)\n"
                 "    task.wait({t})\n    task.sleep(0)\n")
+    elif entry == "service_reload":
+        # the call is still running (waiting) when its file is reloaded; it fails afterwards
+        src += ("@service\ndef entry(x=0):\n    marks.append(('run', x))\n    task.wait_until(event_trigger='go_on', timeout=30)\n"
+                "    f1(x)\n    marks.append(('done', x))\n")
     elif entry == "wait_expr":
         src += ("@service\ndef entry(x=0):\n    marks.append(('run', x))\n"
                 "    r = task.wait_until(state_trigger='f1(int(pyscript.go)) >= 0', timeout=5)\n"
@@ -167,7 +172,7 @@ def reference_frames(src, helper_path, script_path, entry):
     helper = types.ModuleType("helper")
     exec(compile(HELPER, helper_path, "exec"), helper.__dict__)  # noqa: S102
     sys.modules["helper"] = helper
-    g = {"__name__": "hello"}
+    g = {"__name__": "hello", "task": types.SimpleNamespace(wait_until=lambda **kw: None)}
     exc = None
     try:
         try:
@@ -191,9 +196,13 @@ def reference_frames(src, helper_path, script_path, entry):
         return None, None
     frames = [(os.path.basename(f.filename), f.name, f.lineno) for f in traceback.extract_tb(exc.__traceback__)
               if f.filename in (helper_path, script_path)]
+    global LAST_REF_SECTIONS
+    LAST_REF_SECTIONS = len(SEP_RE.findall("".join(traceback.format_exception(exc))))
     return frames, type(exc).__name__
 
 
+SEP_RE = re.compile(r"The above exception was the direct cause of the following exception:|During handling of the above exception, another exception occurred:")
+LAST_REF_SECTIONS = 0
 FRAME_RE = re.compile(r'File "([^"]+)", line (\d+), in ([^\n]+)')
 
 
@@ -215,12 +224,27 @@ def run_case(case, legacy):
         w.settle()
         n0 = len(w.logs.records)
         raised_into_ha = None
+        old_marks = []
 
         def occurrence(x):
             nonlocal raised_into_ha
             try:
                 if entry in ("service", "task", "callback"):
                     w.call_service("pyscript", "entry", {"x": x})
+                elif entry == "service_reload":
+                    t = w.start_service("pyscript", "entry", {"x": x})
+                    w.settle()
+                    old_marks.append(w.g()["marks"])  # the running call keeps writing to the list of the context it was defined in
+                    w.write("hello.py", src_ps + f"# reloaded {x}\n")
+                    w.reload()
+                    w.settle()
+                    w.fire("go_on", {})
+                    w.settle()
+                    w.advance(1)
+                    if not t.done():
+                        raised_into_ha = "service call never returned"
+                    elif t.exception() is not None:
+                        raised_into_ha = repr(t.exception())[:200]
                 elif entry == "wait_expr":
                     w.hass.states.async_set("pyscript.go", "-1")  # the expression is false at the call: the function waits
                     w.settle()
@@ -274,6 +298,9 @@ def run_case(case, legacy):
         msg = on_script[0][2]
         if fault[3] not in msg:
             return {"kind": "message-missing", "expected": fault[3], "observed": msg[-300:]}, obs
+        # (1b) chained exceptions: as many sections as CPython prints for the same exception (none after 'raise ... from None')
+        if len(SEP_RE.findall(msg)) != LAST_REF_SECTIONS:
+            return {"kind": "exception-chain-sections", "expected": LAST_REF_SECTIONS, "observed": len(SEP_RE.findall(msg))}, obs
         # (2) attribution
         pending = None
         # chained exceptions are printed first: the frames of the reported exception follow the last separator
@@ -308,7 +335,7 @@ def run_case(case, legacy):
                 return {"kind": "other-file-not-loaded"}, obs
         else:
             occurrence(1)
-            marks = list(w.g()["marks"])
+            marks = list(w.g()["marks"]) + [m for lst in old_marks for m in lst]
             if ("done", 1) not in marks:
                 return {"kind": "trigger-dead-after-fault", "observed": marks}, obs
             if entry == "callback" and (("cb2", 0) not in marks or ("cb2", 1) not in marks):
@@ -318,6 +345,84 @@ def run_case(case, legacy):
         if w.g("file.other") is None or "other-ran" not in w.g("file.other")["omarks"]:
             return {"kind": "other-function-disturbed"}, obs
         return pending, obs
+    finally:
+        w.close()
+
+
+TRUTH_SRC = '''
+marks = []
+@state_trigger("Boom(int(pyscript.go))")
+def on_state(**kw):
+    marks.append(('state', int(pyscript.go)))
+@event_trigger("ev_go", "Boom(x)")
+def on_event(x=0, **kw):
+    marks.append(('event', x))
+@event_trigger("ev_act")
+@state_active("Boom(int(pyscript.gate))")
+def on_active(**kw):
+    marks.append(('active', int(pyscript.gate)))
+'''
+
+
+class Boom:
+    """A native object whose truth test fails for 0 (what numpy / pandas values do when their truth value is ambiguous)."""
+
+    def __init__(self, x):
+        self.x = x
+
+    def __bool__(self):
+        if self.x == 0:
+            raise ValueError("truth-test-boom")
+        return self.x > 0
+
+
+def run_truthtest(which, legacy):
+    """The VALUE of a trigger / filter / active expression evaluates fine, but its truth test raises: reported once on the script's
+    logger, nothing escapes into Home Assistant, the trigger keeps serving."""
+    import logging
+
+    from mc.world import World
+
+    w = World({"hello.py": TRUTH_SRC, "other.py": OTHER_FILE}, legacy=legacy, capture_logs=True, log_level=logging.WARNING)
+    try:
+        w.hass.states.async_set("pyscript.go", "5")
+        w.hass.states.async_set("pyscript.gate", "5")
+        w.settle()
+        w.g()["Boom"] = Boom
+        n0 = len(w.logs.records)
+        raised = None
+
+        def occ(x):
+            nonlocal raised
+            try:
+                if which == "state":
+                    w.hass.states.async_set("pyscript.go", str(x), {"n": len(w.logs.records)})
+                elif which == "event":
+                    w.fire("ev_go", {"x": x})
+                else:
+                    w.hass.states.async_set("pyscript.gate", str(x))
+                    w.settle()
+                    w.fire("ev_act", {})
+            except Exception as e:  # noqa
+                raised = repr(e)[:200]
+            w.settle()
+            w.advance(1)
+
+        occ(0)
+        recs = [r for r in w.logs.records[n0:] if r[1] == "ERROR" and "truth-test-boom" in r[2]]
+        if len(recs) != 1 or not recs[0][0].startswith("custom_components.pyscript.file.hello"):
+            return {"kind": "truth-test-error-not-reported-once", "expected": "one ERROR record on custom_components.pyscript.file.hello*",
+                    "observed": [(r[0], r[2][:80]) for r in w.logs.records[n0:] if r[1] == "ERROR"]}
+        if raised or w.errors:
+            return {"kind": "truth-test-error-escaped", "observed": raised or repr(w.errors[0])[:300]}
+        occ(1)
+        if (which, 1) not in [tuple(m) for m in w.g()["marks"]]:
+            return {"kind": "trigger-dead-after-fault", "observed": list(w.g()["marks"])}
+        w.fire("ev_other", {})
+        w.settle()
+        if "other-ran" not in w.g("file.other")["omarks"]:
+            return {"kind": "other-function-disturbed"}
+        return None
     finally:
         w.close()
 
@@ -349,12 +454,21 @@ def bounds(tier):
 
 def plan(tier, seed):
     n = 64 if tier == "thorough" else 32
-    return [(tier, legacy, k, n) for legacy in (False, True) for k in range(n)]
+    return [(tier, legacy, k, n) for legacy in (False, True) for k in range(n)] + [("truth", legacy) for legacy in (False, True)]
 
 
 def run_shard(shard):
-    tier, legacy, k, n = shard
     res = Shard()
+    if shard[0] == "truth":
+        legacy = shard[1]
+        for which in ("state", "event", "active"):
+            fail = run_truthtest(which, legacy)
+            c = {"truth": which, "legacy": legacy}
+            res.case(("truth", which, fail["kind"] if fail else "ok"), nontrivial=True, transitions=3, config=("legacy" if legacy else "new") + "/truth", sample=c)
+            if fail:
+                res.fail(f"{'legacy' if legacy else 'new'}|truth-{which}|{fail['kind']}", c, expected=fail.get("expected"), observed=fail.get("observed"))
+        return res
+    tier, legacy, k, n = shard
     for i, case in enumerate(cases(tier)):
         if i % n != k:
             continue
@@ -369,6 +483,9 @@ def run_shard(shard):
 
 
 def replay(case):
+    if "truth" in case:
+        fail = run_truthtest(case["truth"], case["legacy"])
+        return {"ok": fail is None, "failure": fail}
     c = case["case"]
     fail, obs = run_case((tuple(c[0]), c[1], c[2], c[3], c[4]), case["legacy"])
     return {"ok": fail is None, "failure": fail, "records": obs.get("records")}
